@@ -140,3 +140,20 @@ CLAIMED["C15"]["text"] += "; a new connection speaks RESP2; every reply that lea
 CLAIMED["C16"]["technique"] += ", pool-escape rule; names resolved through a recorded schema of types, fields, package variables and functions (renames do not move anchors)"
 CLAIMED["C20"]["technique"] += ", bounded-wait clause for goroutines the termination WaitGroup counts"
 CLAIMED["C20"]["text"] += "; a goroutine counted by the termination WaitGroup never waits for a blocking command's wake-up unless termination ends blocked commands"
+CLAIMED["C03"]["technique"] += ", edge-sensitive bound analysis of client-controlled counts and positions in the list family (A8, incl. increments)"
+CLAIMED["C03"]["text"] += "; every count, index or range position a list command derives from its arguments is bounded before it sizes, indexes or is incremented"
+CLAIMED["C14"]["technique"] += ", describe-the-given-connection rule for the CLIENT LIST renderer"
+CLAIMED["C14"]["text"] += "; the renderer of a CLIENT LIST line reads the connection it was given"
+for _p in ("C01", "C02", "C06"):
+    CLAIMED[_p]["technique"] += ", who-may-convert rule: client text is never decoded as UTF-8 (R-bytes-opaque)"
+    CLAIMED[_p]["text"] += "; client text is never converted to []rune, ranged over as a string or measured with unicode/utf8"
+CLAIMED["C07"]["technique"] += ", clock-provenance rule for absolute deadlines (R-C07-absolute-deadline), freshness of every aggregate a STORE form fills (R-store-replaces)"
+CLAIMED["C07"]["text"] += "; an absolute deadline is the argument, nothing derived from the clock is added; a STORE form fills only aggregates it created for the result"
+CLAIMED["C06"]["technique"] += ", freshness of every aggregate a STORE form fills (R-store-replaces)"
+CLAIMED["C05"]["technique"] += ", every-operand-examined clause of the operand-loop rule"
+CLAIMED["C05"]["text"] += "; a set-algebra worker answers only after it has looked at every operand (a wrong-typed key behind a missing one is WRONGTYPE)"
+CLAIMED["C15"]["technique"] += ", case-to-kind rule in the down-converter (boolean to integer, verbatim string to bulk string)"
+CLAIMED["C15"]["text"] += "; the down-converter turns a boolean into 0/1 and a verbatim string into a bulk string of its text"
+for _p in ("C06", "C19"):
+    CLAIMED[_p]["technique"] += ", path-wise non-nil proof for byte slices stored as string values (R-string-payload-nonnil)"
+    CLAIMED[_p]["text"] += "; a byte slice stored as a string value is never nil (nil reads as another type)"
